@@ -143,7 +143,12 @@ func (t *cuckooDroppedRecord) Reason() uint {
 var _ TraceSentRecord = (*cuckooDroppedRecord)(nil)
 
 type cuckooSentCache struct {
-	met              metrics.Metrics
+	met metrics.Metrics
+	// keptMut guards the kept pointer, not the LRU (which locks itself): the
+	// owning worker replaces the LRU in Resize while router goroutines use it
+	// through ProcessSpanImmediately (stress relief). Resize holds the write
+	// lock while it copies, so no entry added meanwhile is lost.
+	keptMut          sync.RWMutex
 	kept             *lru.Cache[string, *keptTraceCacheEntry]
 	dropped          *CuckooTraceChecker
 	recentDroppedIDs *generics.SetWithTTL[string]
@@ -236,7 +241,9 @@ func (c *cuckooSentCache) Record(trace KeptTrace, keep bool, reason string) {
 		trace.SetKeptReason(c.keptReasons.Set(reason))
 		sentRecord := NewKeptTraceCacheEntry(trace)
 
+		c.keptMut.RLock()
 		c.kept.Add(trace.ID(), sentRecord)
+		c.keptMut.RUnlock()
 
 		return
 	}
@@ -258,7 +265,10 @@ func (c *cuckooSentCache) CheckSpan(span *types.Span) (TraceSentRecord, string, 
 		// we recognize it as dropped, so just say so; there's nothing else to do
 		return &cuckooDroppedRecord{}, "", true
 	}
-	if sentRecord, found := c.kept.Get(span.TraceID); found {
+	c.keptMut.RLock()
+	sentRecord, found := c.kept.Get(span.TraceID)
+	c.keptMut.RUnlock()
+	if found {
 		// if we kept it, then this span being checked needs counting too
 		sentRecord.Count(span)
 		reason, _ := c.keptReasons.Get(uint(sentRecord.reason))
@@ -279,6 +289,7 @@ func (c *cuckooSentCache) Resize(cfg config.SampleCacheConfig) error {
 	// what will fit in the new one, discard the oldest ones
 	// (we don't have to do anything with the ones we discard, this is
 	// the trace decisions cache).
+	c.keptMut.Lock()
 	keys := c.kept.Keys()
 	if len(keys) > keptSize {
 		keys = keys[len(keys)-keptSize:]
@@ -290,6 +301,7 @@ func (c *cuckooSentCache) Resize(cfg config.SampleCacheConfig) error {
 		}
 	}
 	c.kept = stc
+	c.keptMut.Unlock()
 
 	// also set up the drop cache size to change eventually
 	c.dropped.SetNextCapacity(cfg.GetDroppedSizePerWorker())
@@ -311,7 +323,10 @@ func (c *cuckooSentCache) CheckTrace(traceID string) (TraceSentRecord, string, b
 		// we recognize it as dropped, so just say so; there's nothing else to do
 		return &cuckooDroppedRecord{}, "", true
 	}
-	if sentRecord, found := c.kept.Get(traceID); found {
+	c.keptMut.RLock()
+	sentRecord, found := c.kept.Get(traceID)
+	c.keptMut.RUnlock()
+	if found {
 		reason, _ := c.keptReasons.Get(uint(sentRecord.reason))
 		return sentRecord, reason, true
 	}
